@@ -8,6 +8,8 @@
 (*   owner     a claimed shard is owned only by the instance with the       *)
 (*             newest claim, and by it unless it released it or has left    *)
 (*   leftowns  no live instance still lists an instance that left           *)
+(*   mergeview after a state push of i was merged at j, j's view of i is    *)
+(*             what the push held                                           *)
 (* Route events (one call of DeliverMessagesToShardOwner /                  *)
 (* DeliverAckToShardOwner each) must match Gossip!Route's decision:         *)
 (*   route     local iff a local channel exists, else the recorded owner    *)
@@ -17,14 +19,15 @@
 EXTENDS Integers, Sequences, FiniteSets, TLC, Json
 Trace == ndJsonDeserialize("trace.ndjson")
 ASSUME TLCSet(1, {})
-VARIABLES l, seqno, claim, held, left, broken
-vars == <<l, seqno, claim, held, left, broken>>
+VARIABLES l, seqno, claim, held, left, broken,
+          snapv     \* <<from, to, id>> -> shard ids the state push holds
+vars == <<l, seqno, claim, held, left, broken, snapv>>
 FlagAll(S) == IF S = {} THEN TRUE ELSE TLCSet(1, TLCGet(1) \cup S)
 Get(f, k, d) == IF k \in DOMAIN f THEN f[k] ELSE d
 Put(f, k, v) == [x \in DOMAIN f \cup {k} |-> IF x = k THEN v ELSE f[x]]
-Init == l = 1 /\ seqno = 0 /\ claim = <<>> /\ held = <<>> /\ left = {} /\ broken = FALSE
+Init == l = 1 /\ seqno = 0 /\ claim = <<>> /\ held = <<>> /\ left = {} /\ broken = FALSE /\ snapv = <<>>
 
-OnStep(e) ==
+OnStep0(e) ==
   IF ~e.ok THEN broken' = TRUE /\ UNCHANGED <<seqno, claim, held, left>>
   ELSE CASE e.a = "Claim" -> /\ seqno' = seqno + 1 /\ claim' = Put(claim, <<e.i, e.sh>>, seqno + 1)
                              /\ held' = Put(held, <<e.i, e.sh>>, TRUE) /\ UNCHANGED <<left, broken>>
@@ -32,6 +35,19 @@ OnStep(e) ==
          [] e.a = "Leave" -> left' = left \cup {e.i} /\ UNCHANGED <<seqno, claim, held, broken>>
          [] OTHER -> UNCHANGED <<seqno, claim, held, left, broken>>
 
+\* mergeview: right after a full-state push from i has been merged at j, j's view of i is what the push held (the "known
+\* remote owner" of the routing clause comes from these views); skipped for an i that has left (known finding: merge after leave)
+MergeViewBad(e) ==
+  /\ e.a = "Merge" /\ e.ok /\ e.i \notin left /\ e.j \notin left /\ <<e.i, e.j, e.val>> \in DOMAIN snapv
+  /\ e.j \in DOMAIN e.view
+  /\ ~(e.i \in DOMAIN e.view[e.j].remote /\ e.view[e.j].remote[e.i] = snapv[<<e.i, e.j, e.val>>])
+OnStep(e) ==
+  /\ snapv' = (IF e.ok /\ e.a = "Snapshot" THEN Put(snapv, <<e.i, e.j, e.val>>, e.snap)
+               ELSE IF e.ok /\ e.a = "Join" THEN [k \in DOMAIN snapv \cup {<<e.i, p, e.val>> : p \in DOMAIN e.view} |->
+                                                   IF k \in DOMAIN snapv THEN snapv[k] ELSE e.snap]
+               ELSE snapv)
+  /\ (IF MergeViewBad(e) THEN FlagAll({<<l, "mergeview", 0, 0>>}) ELSE TRUE)
+  /\ OnStep0(e)
 OnQuiet(e) ==
   LET live == DOMAIN e.view
       shards == {k[2] : k \in DOMAIN claim}
@@ -43,7 +59,7 @@ OnQuiet(e) ==
       badLeft == {j \in live : \E k \in 1..Len(e.view[j].peers) : e.view[j].peers[k] \in left}
   IN /\ (IF broken THEN TRUE
          ELSE FlagAll({<<l, "owner", sh, 0>> : sh \in badOwner} \cup {<<l, "leftowns", 0, 0>> : j \in badLeft}))
-     /\ UNCHANGED <<seqno, claim, held, left, broken>>
+     /\ UNCHANGED <<seqno, claim, held, left, broken, snapv>>
 
 \* Gossip!Route for one owner candidate
 OnRoute(e) ==
@@ -57,15 +73,15 @@ OnRoute(e) ==
             \* reports success without having handed the message to exactly one party
             /\ (e.closed => e.local = 0 /\ e.remote <= 1 /\ e.result = (e.remote = 1) /\ (~remoteAvail => e.remote = 0))
   IN /\ (IF ok THEN TRUE ELSE FlagAll({<<l, "route", e.id, 0>>}))
-     /\ UNCHANGED <<seqno, claim, held, left, broken>>
+     /\ UNCHANGED <<seqno, claim, held, left, broken, snapv>>
 
 Next == /\ l <= Len(Trace) /\ l' = l + 1
         /\ LET e == Trace[l] IN
-           CASE e.ev = "Config" -> seqno' = 0 /\ claim' = <<>> /\ held' = <<>> /\ left' = {} /\ broken' = FALSE
+           CASE e.ev = "Config" -> seqno' = 0 /\ claim' = <<>> /\ held' = <<>> /\ left' = {} /\ broken' = FALSE /\ snapv' = <<>>
              [] e.ev = "Step" -> OnStep(e)
              [] e.ev = "Quiet" -> OnQuiet(e)
              [] e.ev = "Route" -> OnRoute(e)
-             [] OTHER -> UNCHANGED <<seqno, claim, held, left, broken>>
+             [] OTHER -> UNCHANGED <<seqno, claim, held, left, broken, snapv>>
 Spec == Init /\ [][Next]_vars
 Report == PrintT(<<"OBS_VIOLATIONS", TLCGet(1)>>) /\ PrintT(<<"OBS_TRACE_LEN", Len(Trace)>>)
 =============================================================================
